@@ -77,6 +77,12 @@ def evaluate(vs, ls, unis=(), level=2, unhashable=True, searches=True):
         # callable itself, e.g. its id(), would confuse them)
         out.append((f"nb v{i} d1 u1 fresh-accept", _call(lambda: helpers.neighbors(v, 1, 1, lambda e, x: True), vl)))
         out.append((f"nb v{i} d1 u1 fresh-reject", _call(lambda: helpers.neighbors(v, 1, 1, lambda e, x: False), vl)))
+        if unhashable:
+            # the same with short-lived UNHASHABLE callables (and their bound methods)
+            out.append((f"nb v{i} d1 u1 fresh-unhashable-accept", _call(lambda: helpers.neighbors(v, 1, 1, C.UnhashableFilter(f_accept)), vl)))
+            out.append((f"nb v{i} d1 u1 fresh-unhashable-select", _call(lambda: helpers.neighbors(v, 1, 1, C.UnhashableFilter(f_select)), vl)))
+            out.append((f"nb v{i} d0 u1 fresh-unhashable-method", _call(lambda: helpers.neighbors(v, 0, 1, C.UnhashableFilter(f_select).__call__), vl)))
+            out.append((f"nb v{i} d0 u1 fresh-unhashable-method2", _call(lambda: helpers.neighbors(v, 0, 1, C.UnhashableFilter(f_accept).__call__), vl)))
     if level < 2:
         return out
     universes = [None] + list(unis)
